@@ -101,7 +101,7 @@ def r09_1(ctx):
                     f"connect() leaves handler v{proto_version(ctx, st.get('_protocol'))}, gateway {st.get('_gw')!r}", func=c)
 
 
-@rule("R09.2", ["C09"], "T-FUN", floor=14)
+@rule("R09.2", ["C09", "C13"], "T-FUN", floor=14)
 def r09_2(ctx):
     """Two-step version query for NCP versions 4..16 and 255: the first query asks for the current version; when
     the NCP reports another one the host adopts it (handler of exactly that version for 4..14, the newest known
@@ -111,11 +111,11 @@ def r09_2(ctx):
     repo = ctx.repo
     by = ez_cls(ctx).lookup("_BY_VERSION")
     ctx.require(isinstance(by, dict) and sorted(by) == list(KNOWN) and list(KNOWN) == list(range(KNOWN[0], KNOWN[-1] + 1)), "_BY_VERSION:keys",
-                f"_BY_VERSION keys are {sorted(by) if isinstance(by, dict) else by!r}: supported versions must be contiguous from 4")
+                f"_BY_VERSION keys are {sorted(by) if isinstance(by, dict) else by!r}: supported versions must be contiguous from 4", props=("C09",))
     for k, c in (by.items() if isinstance(by, dict) else []):
-        ctx.require(isinstance(c, ClassRef) and c.lookup("VERSION") == k, f"_BY_VERSION:{k}", f"_BY_VERSION[{k}] is {c!r} with VERSION {c.lookup('VERSION') if isinstance(c, ClassRef) else '?'}")
+        ctx.require(isinstance(c, ClassRef) and c.lookup("VERSION") == k, f"_BY_VERSION:{k}", f"_BY_VERSION[{k}] is {c!r} with VERSION {c.lookup('VERSION') if isinstance(c, ClassRef) else '?'}", props=("C09",))
     latest = repo.get(EZ, "EZSP_LATEST")
-    ctx.require(latest == max(KNOWN), "EZSP_LATEST", f"EZSP_LATEST = {latest!r}")
+    ctx.require(latest == max(KNOWN), "EZSP_LATEST", f"EZSP_LATEST = {latest!r}", props=("C09",))
     f = repo.func(f"{EZ}:EZSP.version")
     ctx.fn(f)
     for ncp in list(KNOWN) + [KNOWN[-1] + 1, KNOWN[-1] + 2, 255]:
@@ -148,7 +148,30 @@ def r09_2(ctx):
                     if not sw or not (p.events.index(q[0]) < p.events.index(sw[0]) < p.events.index(q[1])):
                         bad = "the handler is not switched between the two queries (the confirming query must use the new format)"
             ctx.require(not bad and p.terminal == "return", f"version:ncp={'known' if ncp in KNOWN else 'newer'}:{'same' if ncp == 4 else 'other'}",
-                        f"NCP version {ncp}: {bad}", func=f, trace=p.trace(12))
+                        f"NCP version {ncp}: {bad}", func=f, trace=p.trace(12), props=("C09",))
+    # the confirming query gets no answer (the frame or its reply is lost; the application then retries or resets): whatever happens,
+    # the recorded version - which the application uses to pick the field order when it unpacks callbacks - and the installed handler
+    # - which decodes them - must still belong together
+    for ncp in (8, KNOWN[-1]):
+        calls = {"n": 0}
+
+        def cmd(px_, t, a, k, fr, ncp=ncp):
+            calls["n"] += 1
+            return (ncp, Sym("stack_type"), Sym("stack_version")) if calls["n"] == 1 else Outcomes(RAISE("TimeoutError"))
+
+        pxf = PX(repo, models=[("self._command", cmd)], inline=same_class(stop=("handle_callback",)))
+
+        def setup_f():
+            calls["n"] = 0
+            return self_obj(ez_cls(ctx), {"_ezsp_version": 4, "_protocol": Obj(repo.cls("bellows.ezsp.v4", "EZSPv4"), {}, tag="v4"), "_gw": Sym("gw")}), {}
+
+        for p in pxf.explore(f, setup_f):
+            ctx.paths += 1
+            st = p.store["self"]
+            rec, han = st.get("_ezsp_version"), proto_version(ctx, st.get("_protocol"))
+            ctx.require(p.raised("TimeoutError") and ((rec == ncp and han == ncp) or (rec == 4 and han == 4)), "version:confirmation-lost",
+                        f"NCP version {ncp}, the confirming query times out: version() {p.terminal}s {p.value!r} with recorded version {rec!r} and handler v{han} "
+                        "(the two must still agree)", func=f, trace=p.trace(12), props=("C09", "C13"))
     # history on ONE EZSP object: negotiate, reset, negotiate again (the NCP forgets the negotiated version with every reset, so the
     # whole exchange must be repeated: legacy first query for version 4, handler switched, confirming query for the reported version)
     rf = repo.func(f"{EZ}:EZSP.reset")
@@ -188,7 +211,7 @@ def r09_2(ctx):
                     bad = f"the second negotiation asks for {[e.kwargs.get('desiredProtocolVersion') for e in q]!r}, must be [4, {ncp}]"
                 elif me.fields.get("_ezsp_version") != ncp or proto_version(ctx, me.fields.get("_protocol")) != (ncp if ncp in KNOWN else max(KNOWN)):
                     bad = f"ends with version {me.fields.get('_ezsp_version')!r} / handler v{proto_version(ctx, me.fields.get('_protocol'))}"
-            ctx.require(not bad, "version:renegotiation-after-reset", f"NCP version {ncp}, negotiate / reset / negotiate on one object: {bad}", func=f, trace=p.trace(30))
+            ctx.require(not bad, "version:renegotiation-after-reset", f"NCP version {ncp}, negotiate / reset / negotiate on one object: {bad}", func=f, trace=p.trace(30), props=("C09",))
 
 
 @rule("R09.5", ["C09"], "T-ORD", floor=4)
